@@ -96,7 +96,7 @@ def thermal_worker(job, oblig_fn, meta_prefix, pfkw=None, witnesses_fn=None, bui
     bkw = dict(build_kwargs or {})
 
     def run():
-        net, names = nets.build(spec, nets.sym_valuer(), fluid=stubs.make_sym_fluid(False, **(fluid_kwargs or {})), **bkw)
+        net, names = nets.build(spec, nets.sym_valuer(), fluid=stubs.make_sym_fluid(spec["fluid"] != "water", **(fluid_kwargs or {})), **bkw)
         pp.pipeflow(net, **kw)
         return net
     _, names = nets.build(spec, nets.sym_valuer(), **bkw)
@@ -116,10 +116,23 @@ def thermal_worker(job, oblig_fn, meta_prefix, pfkw=None, witnesses_fn=None, bui
     stubs.CTX.spsolve_mode = 'fixed_point'
     try:
         ws = witnesses_fn(names, p0, job) if witnesses_fn else [H.Witness(dict(names))]
+        if not fluid_kwargs:
+            # second path: the state of a converged float run of the real code (physical flow directions)
+            wp = H.physical_witness(spec, names, kw, spec["fluid"] != "water", build_kwargs=bkw)
+            if wp is not None:
+                ws = list(ws) + [wp]
         ex = H.explore_witnesses(run, ws, A)
     finally:
         stubs.CTX.spsolve_mode = 'free'
     viol, errs = [], []
+    validated = 0
+    for pi, p in enumerate(ex.paths[:1]):
+        # encoding validation: rows and results of the symbolic run at the witness vs a float run of the real code
+        if p.exc is None and p.witness is not None and not fluid_kwargs:
+            nv, badv = H.validate_against_impl(spec, p, kw, False if spec["fluid"] == "water" else True, build_kwargs=bkw,
+                                               fixed_point=True)
+            validated += 1 if nv else 0
+            errs += ["encoding validation, path %d: %s" % (pi, b_) for b_ in badv[:3]]
     for pi, p in enumerate(ex.paths):
         if p.exc is not None:
             if not expected_exc(p.exc):
@@ -152,4 +165,4 @@ def thermal_worker(job, oblig_fn, meta_prefix, pfkw=None, witnesses_fn=None, bui
     if job.get("_vacuous"):
         job.setdefault("_inconclusive", []).append("%d obligations skipped on paths that contradict their row hypotheses"
                                                    % job["_vacuous"])
-    return finish_worker(job, ex, viol, errors=errs)
+    return finish_worker(job, ex, viol, errors=errs, validated=validated)
